@@ -33,12 +33,13 @@ type Step struct {
 
 // Case is a sequence of hellos against a server with hello verification on.
 type Case struct {
-	Ver     int    `json:"ver"` // 12 | 13
-	Family  string `json:"family"`
-	KnownID bool   `json:"knownid,omitempty"` // 1.2: first hello offers a session id the server knows
-	BogusID bool   `json:"bogusid,omitempty"` // first hello offers an unknown session id
-	IvlMs   int    `json:"ivl"`
-	Steps   []Step `json:"steps"`
+	Ver      int    `json:"ver"` // 12 | 13
+	Family   string `json:"family"`
+	KnownID  bool   `json:"knownid,omitempty"`  // 1.2: first hello offers a session id the server knows
+	BogusID  bool   `json:"bogusid,omitempty"`  // first hello offers an unknown session id
+	SrvStore bool   `json:"srvstore,omitempty"` // the server has a session store (which does not know the offered id)
+	IvlMs    int    `json:"ivl"`
+	Steps    []Step `json:"steps"`
 }
 
 var hrrRandom = []byte{0xCF, 0x21, 0xAD, 0x74, 0xE5, 0x9A, 0x61, 0x11, 0xBE, 0x1D, 0x8C, 0x02, 0x1E, 0x65, 0xB8, 0x91, 0xC2, 0xA2, 0x11, 0x16, 0x7A, 0xBB, 0x8C, 0x5E, 0x07, 0x9E, 0x09, 0xE2, 0xC8, 0xA8, 0x33, 0x9C}
@@ -57,6 +58,9 @@ func epsFor(c *Case) (cl, sv scen.EP) {
 	cl.IntervalMs, sv.IntervalMs = c.IvlMs, c.IvlMs
 	if c.KnownID {
 		cl.Store, sv.Store = "cs", "ss"
+	}
+	if c.SrvStore {
+		sv.Store = "ss"
 	}
 
 	return cl, sv
@@ -540,8 +544,9 @@ func gen(t *rapid.T) Case {
 		switch rapid.IntRange(0, 5).Draw(t, "sid") {
 		case 0:
 			c.KnownID = c.Family == "cert"
-		case 1:
+		case 1, 2:
 			c.BogusID = true
+			c.SrvStore = rapid.Bool().Draw(t, "srvstore")
 		}
 	}
 	ns := rapid.IntRange(1, 5).Draw(t, "nsteps")
@@ -570,6 +575,16 @@ func enumGrid(_ string, yield func(Case) bool) {
 					c := Case{Ver: ver, Family: "cert", IvlMs: 1000, Steps: []Step{{Cookie: ck, Alter: al, GapMs: gap}, {Cookie: "right", Alter: "none"}}}
 					if !yield(c) {
 						return
+					}
+					if ver == 12 && gap == 0 {
+						// the first hello offers a session id the server cannot know, with and without a store
+						for _, st := range []bool{false, true} {
+							c2 := c
+							c2.BogusID, c2.SrvStore = true, st
+							if !yield(c2) {
+								return
+							}
+						}
 					}
 				}
 			}
